@@ -74,7 +74,7 @@ theorem flatMap_congr_mem {α β : Type} (l : List α) (f g : α → List β) (h
     simp only [List.flatMap_cons]
     rw [hfg a (List.mem_cons_self ..), ih (fun x hx => hfg x (List.mem_cons_of_mem _ hx))]
 
-theorem skipWrapperAux_suffix (fwa : List String) (b : Bool) (l : List String) : ∃ j, skipWrapperAux fwa b l = l.drop j := by
+theorem skipWrapperAux_suffix (fwa : WrapOpts) (b : Bool) (l : List String) : ∃ j, skipWrapperAux fwa b l = l.drop j := by
   induction l generalizing b with
   | nil => exact ⟨0, by cases b <;> rfl⟩
   | cons t ts ih =>
@@ -88,16 +88,19 @@ theorem skipWrapperAux_suffix (fwa : List String) (b : Bool) (l : List String) :
       · obtain ⟨j, hj⟩ := ih false
         exact ⟨j + 1, by simpa using hj⟩
       · split
-        · obtain ⟨j, hj⟩ := ih true
+        · obtain ⟨j, hj⟩ := ih false
           exact ⟨j + 1, by simpa using hj⟩
         · split
-          · obtain ⟨j, hj⟩ := ih false
+          · obtain ⟨j, hj⟩ := ih true
             exact ⟨j + 1, by simpa using hj⟩
           · split
-            · exact ⟨1, by simp⟩
-            · exact ⟨0, by simp⟩
+            · obtain ⟨j, hj⟩ := ih false
+              exact ⟨j + 1, by simpa using hj⟩
+            · split
+              · exact ⟨1, by simp⟩
+              · exact ⟨0, by simp⟩
 
-theorem skipWrapperArgs_suffix (fwa : List String) (l : List String) : ∃ j, skipWrapperArgs fwa l = l.drop j :=
+theorem skipWrapperArgs_suffix (fwa : WrapOpts) (l : List String) : ∃ j, skipWrapperArgs fwa l = l.drop j :=
   skipWrapperAux_suffix fwa false l
 
 /-- a command none of whose word suffixes the new rule matches keeps its verdict *and reason* -/
